@@ -79,6 +79,11 @@ theorem nextMultipleOf_eq_roundUp (n a : Nat) (ha : 0 < a) : nextMultipleOf n a 
         rw [Nat.mul_succ]; omega
     · unfold nextMultipleOf; split <;> omega
 
+theorem roundUp_one {a : Nat} (ha : 0 < a) : roundUp 1 a = a := by
+  unfold roundUp
+  have : 1 + a - 1 = a := by omega
+  rw [this, Nat.div_self ha, Nat.one_mul]
+
 /-! ### powers of two -/
 
 theorem isPow2.pos {a : Nat} (h : isPow2 a) : 0 < a := by
